@@ -54,6 +54,15 @@ def run_sub(pu, inn, tn, td, a=1.0, b=0.0):
             row.append(pt)
         out.append(row)
     ev["out"] = out
+    if len(pos) < len(inn):
+        # node objects were replaced rather than edited in place: identify the original nodes by their (unchanged) points, in order
+        pos, at = {}, 0
+        for k, nd in enumerate(inn):
+            while at < len(out) and out[at][1] != list(nd[1]):
+                at += 1
+            if at < len(out):
+                pos[k] = at + 1
+                at += 1
     ev["orig"] = [pos.get(k, 0) for k in range(len(inn))]
     return ev
 
